@@ -302,16 +302,17 @@ func (s Spec) Probes() []string {
 		}
 		add("", " ", "-", "+", "-0", "+0", "00", "1e3", "0x10", "1_0", " 5", "5 ", "5.", ".5", "-.5", "1.5", "1.50", "a", "--1", "9223372036854775807", "9223372036854775808", "-9223372036854775808", "-9223372036854775809",
 			"18446744073709551615", "18446744073709551616", "99999999999999999999", "-99999999999999999999", "1.", "0.", "0.0", "-0.0", "Infinity", "NaN", "٣")
-		// every string of <= 4 symbols over sign, digit and point characters (++5, +-5, 5+, -.5, 0.5.)
+		// every string of <= 5 symbols over sign, digit, point and exponent characters (++5, +-5, 5+,
+		// -.5, 0.5., 5e0, 5.0e5, .5e-5)
 		var lex func(p string, n int)
 		lex = func(p string, n int) {
 			if p != "" {
 				add(p)
 			}
-			if n == 4 {
+			if n == 5 {
 				return
 			}
-			for _, a := range []string{"+", "-", "5", "0", "."} {
+			for _, a := range []string{"+", "-", "5", "0", ".", "e"} {
 				lex(p+a, n+1)
 			}
 		}
